@@ -43,8 +43,8 @@ MODELS = {
 
 # property -> list of (profile, traces, steps) per tier
 PLANS = {
-    "C03": {"quick": [("sweep:14:3", 0, 0), ("hostile", 400, 60)],
-            "thorough": [("sweep:40:11", 0, 0), ("hostile", 20000, 80)]},
+    "C03": {"quick": [("sweep:14:5", 0, 0), ("hostile", 400, 60)],
+            "thorough": [("sweep:40:15", 0, 0), ("hostile", 20000, 80)]},
     "C05": {"quick": [("mixed", 250, 60), ("nomech", 120, 60), ("st", 120, 60)],
             "thorough": [("mixed", 4000, 80), ("nomech", 1500, 80), ("st", 1500, 80), ("lt", 1500, 80)]},
     "C06": {"quick": [("sched", 300, 50), ("mixed", 100, 60)],
